@@ -1801,6 +1801,10 @@ impl SocketAddress for unix::net::SocketAddr {
             }
         }
 
+        // NOTE: for path names the kernel includes the terminating null byte
+        // (and possibly bytes following it) in the length, but `from_pathname`
+        // doesn't accept them.
+        let path = path.split(|b| *b == 0).next().unwrap_or(path);
         unix::net::SocketAddr::from_pathname(Path::new(OsStr::from_bytes(path)))
             // Fallback to an unnamed address.
             // SAFETY: unnamed (zero length) address is valid.
